@@ -4031,6 +4031,16 @@ class State:
                     ' it is not.'
                 ),
             )
+        elif any(
+                cards.count(card) > self.hole_cards[player_index].count(card)
+                for card in cards
+        ):
+            raise ValueError(
+                (
+                    f'The discarded cards {repr(cards)} contain more copies of'
+                    ' a card than the player holds.'
+                ),
+            )
 
         return cards
 
